@@ -194,6 +194,30 @@ def batch_files(max_n, lo, hi, seed):
     return res
 
 
+FRAG_OPS = ['AND', 'OR', 'IMPLIES', 'EQUIVALENCE', 'REQUIRES', 'EXCLUDES']
+
+
+def cycle_tree(tree):
+    """one constraint tree on a fixed model through write/read at Element level (twice)."""
+    tree = totuple(tree)
+    shape = (((), ()),)
+    m = R.build(shape, [(1, 2)], ctcs=[R.ctc('c0', tree)])
+    try:
+        m2 = read_tree(_to_featureidexml(m))
+        if not rt.ctcs_equivalent(m, m2, same_names=False):
+            return ['constraint %r is read back as %r: not logically equivalent' % (tree, [R.node_tree(c.ast.root) for c in m2.ctcs])]
+        m3 = read_tree(_to_featureidexml(m2))
+        if R.snapshot(m3, with_attrs=False, with_types=False) != R.snapshot(m2, with_attrs=False, with_types=False):
+            return ['constraint %r changes again in the second cycle' % (tree,)]
+    except Exception as exc:
+        return ['round trip of constraint %r raises %s: %s' % (tree, type(exc).__name__, exc)]
+    return []
+
+
+def batch_trees(lo, hi, full):
+    return rt.ctc_tree_batch(__name__, 'cycle_tree', FRAG_OPS, lo, hi, full, 'constraint-roundtrip')
+
+
 def conditions(tier, seed):
     conds = []
     N = 4 if tier == 'quick' else 5
@@ -229,7 +253,12 @@ def batches(tier, seed):
     N = 4 if tier == 'quick' else 5
     total = len([s for s in R.shapes(N) if in_fragment_shape(s)])
     step = total // 12 + 1
-    return [('batch_files', [N, lo, lo + step, seed + lo]) for lo in range(0, total, step)]
+    b = [('batch_files', [N, lo, lo + step, seed + lo]) for lo in range(0, total, step)]
+    full = tier != 'quick'
+    nt = len(rt.ctc_family(FRAG_OPS, ['F0', 'F1', 'F2'], full))
+    st = nt // 12 + 1
+    b += [('batch_trees', [lo, lo + st, full]) for lo in range(0, nt, st)]
+    return b
 
 
 def info(tier):
